@@ -41,3 +41,12 @@ Fixpoint msg_poly (bits : list bool) : Z :=
   | [] => 0
   | b :: r => Z.lxor (Z.shiftl (Z.b2z b) (Z.of_nat (length r))) (msg_poly r)
   end.
+
+(* ---- the byte-at-a-time table algorithm (what the harness's references implement) ---------- *)
+(* table entry: the byte b placed in the top 8 bits, then 8 zero-data steps *)
+Definition crc_table (poly w b : Z) : Z :=
+  Nat.iter 8 (fun r => crc_step poly w r false) (Z.shiftl b (w - 8)).
+Definition crc_byte_table (poly w r e : Z) : Z :=
+  Z.lxor ((Z.shiftl r 8) mod 2 ^ w) (crc_table poly w (Z.lxor (Z.shiftr r (w - 8)) e)).
+Definition crc_table_driven (poly w init xorout : Z) (data : list Z) : Z :=
+  Z.lxor (fold_left (crc_byte_table poly w) data init) xorout.
